@@ -65,8 +65,12 @@ def Z(v):
     return "(%d)" % v if v < 0 else str(v)
 
 
-def obs(a):  # a = S() args: serial, sid, streaming, send_closed, closed, pending_open, win, avail, req, buf
-    return "(mkObs %s %s %s %s)" % tuple(common.coq_bool(a[i]) for i in (2, 3, 4, 5))
+def obs(a, reset=False):
+    """a = S() args: serial, sid, streaming, send_closed, closed, pending, win, avail, req, buf.
+    `pending` has bit 0 = is_pending_open, bit 1 = is_pending_push.  For capacity assignment both mean 'not yet
+    sendable: assign nothing' (try_assign_capacity, fix 7fdfda9); send_reset only asks is_pending_open."""
+    pend = (int(a[5]) & 1) if reset else (1 if int(a[5]) != 0 else 0)
+    return "(mkObs %s %s %s %s)" % (common.coq_bool(a[2]), common.coq_bool(a[3]), common.coq_bool(a[4]), common.coq_bool(pend))
 
 
 def pre_s(a):
@@ -155,7 +159,7 @@ def labels_of_scenario(sc):
         elif nm == "prio.recv_connection_window_update":
             add("LRecvConnWU %s %s" % (Z(a[2]), visits_of(n)), None, pre_c(a, 0), None)
         elif nm == "send.send_reset":
-            add("LSendReset %d%%N %s %s %s %s" % (a[0], obs(a), common.coq_bool(a[10]), common.coq_bool(a[11]), visits_of(n)),
+            add("LSendReset %d%%N %s %s %s %s" % (a[0], obs(a, reset=True), common.coq_bool(a[10]), common.coq_bool(a[11]), visits_of(n)),
                 pre_s(a), None, observed_outs(n))
         elif nm in ("send.handle_error", "prio.pop_scheduled_reset"):
             add("LHandleError %d%%N %s" % (a[0], visits_of(n)), pre_s(a), None, observed_outs(n))
@@ -173,7 +177,7 @@ def labels_of_scenario(sc):
             for k in n.kids:
                 if k.name == "send.send_reset":
                     ka = k.args
-                    add("LSendReset %d%%N %s %s %s %s" % (ka[0], obs(ka), common.coq_bool(ka[10]), common.coq_bool(ka[11]), visits_of(k)),
+                    add("LSendReset %d%%N %s %s %s %s" % (ka[0], obs(ka, reset=True), common.coq_bool(ka[10]), common.coq_bool(ka[11]), visits_of(k)),
                         None, None, None)
         elif nm == "prio.pop_data":
             add("LPopData %d%%N %s %s" % (a[0], Z(a[12]), Z(a[13])), pre_s(a), pre_c(a), observed_outs(n))
